@@ -38,13 +38,13 @@ def run(chk):
   chk.notes['mirror_counterexample'] = [s['state'].get('act') for s in (r.error_trace or [])]
   hits = {}
   plan = [('C09_sim.cfg', 500, 30), ('C09_sim_dl.cfg', 400, 30)] if not thorough else \
-         [('C09_sim.cfg', 10000, 40), ('C09_sim_dl.cfg', 8000, 40)]
+         [('C09_sim.cfg', 4000, 40), ('C09_sim_dl.cfg', 3000, 40)]
   for cfg, num, depth in plan:
     h = symtree_check.replay_simulated(chk, cfg, CLAUSES, num, depth, chk.seed, batches=1 if not thorough else 8)
     for k, v in h.items():
       hits[k] = hits.get(k, 0) + v
   h = symtree_check.replay_transitions(chk, 'C09_states.cfg', 'C09_step.cfg', CLAUSES,
-                                       max_states=8 if not thorough else 100, seed=chk.seed)
+                                       max_states=8 if not thorough else 40, seed=chk.seed)
   for kk, v in h.items():
     hits[kk] = hits.get(kk, 0) + v
   chk.notes['action_outcome_hits'] = dict(sorted(hits.items()))
